@@ -58,6 +58,8 @@ var Alphabet = []Item{
 	{ID: "objml", Kind: kAttr, Name: "object_ml", Core: true, Tmpl: "@·=·{\n»k·=·1\n»\"j j\"·:·[¦]\n»long_key·=·{¦}·# oc\n}\n"},
 	{ID: "call", Kind: kAttr, Name: "ca", Core: true, Tmpl: "@·=·f¦(¦1¦,·b¦,·g¦(¦y¦...¦)¦)\n"},
 	{ID: "trav", Kind: kAttr, Name: "tr", Tmpl: "@·=·b¦.¦c¦[¦0¦]¦.¦d¦[¦\"k\"¦]\n"},
+	// index keys that are neither a string nor a number literal
+	{ID: "travkeys", Kind: kAttr, Name: "tk", Tmpl: "@·=·b¦[¦true¦]¦[·null·]¦.¦c¦[¦-1¦]\n"},
 	{ID: "cond", Kind: kAttr, Name: "co", Tmpl: "@·=·e·?·1·:·-2\n"},
 	{ID: "ops", Kind: kAttr, Name: "op", Core: true, Tmpl: "@·=·-d·+·2·*·(¦d·-·-1¦)·%·2·>=·3·&&·!e·||·d·==·d·/·1\n"},
 	{ID: "for", Kind: kAttr, Name: "fo", Tmpl: "@·=·[¦for§x§in§y·:·x·*·2§if§x·!=·1¦]\n"},
